@@ -379,7 +379,7 @@ func Relevant(prop, signature string) bool {
 
 func Budget(thorough bool) e1.Budget {
 	// the caches inside the chain (theine) are not visible objects: no state-key pruning
-	b := e1.Budget{Bounds: []int{0, 1, 2, 3, -1}, Required: 2, Prune: false, Elide: true, PerScen: 45 * time.Second, DevBounds: []int{1, 2, 3}, DevRequired: 2, DevPerScen: 10 * time.Second}
+	b := e1.Budget{Bounds: []int{0, 1, 2, 3, -1}, Required: 2, Prune: false, Elide: true, PerScen: 45 * time.Second, DevBounds: []int{1, 2}, DevRequired: 1, DevPerScen: 6 * time.Second}
 	if thorough {
 		b.PerScen = 10 * time.Minute
 		b.Required = 3
